@@ -31,6 +31,14 @@ fn thread_call(rng: &mut Rng, tid: usize, sc: &mut Scenario, have_files: &mut bo
         }
         _ => gen::lib_program(rng),
     };
+    if rng.chance(1, 6) {
+        let mut c = Call::new(Api::PreprocessStr, "");
+        c.text = Some(gen::comment_macro_program(rng));
+        c.slot = if tid < 3 && rng.coin() { Some(tid as u8) } else { None };
+        c.strip_comments = rng.coin();
+        c.hash_seed = rng.next();
+        return c;
+    }
     let api = match rng.below(16) {
         0..=4 => Api::ParseSvStr,
         5 => Api::PreprocessStr,
@@ -59,6 +67,9 @@ fn thread_call(rng: &mut Rng, tid: usize, sc: &mut Scenario, have_files: &mut bo
         let mut c = Call::new(*rng.pick(&[Api::ParseSv, Api::Preprocess, Api::ParseSvPp]), proj["top"].as_str().unwrap_or("top.sv"));
         c.include_paths = strs(&proj["include_paths"]);
         c.hash_seed = rng.next();
+        c.strip_comments = rng.coin();
+        c.ignore_include = rng.chance(1, 6);
+        c.allow_incomplete = rng.chance(1, 4);
         if rng.chance(1, 4) {
             let files: Vec<String> = strs(&proj["files"]).into_iter().filter(|p| p.ends_with(".svh")).collect();
             if !files.is_empty() {
@@ -73,6 +84,9 @@ fn thread_call(rng: &mut Rng, tid: usize, sc: &mut Scenario, have_files: &mut bo
     }
     let mut c = Call::new(api, "");
     c.text = Some(src);
+    // concurrent calls differ in every flag, not only in their input
+    c.strip_comments = rng.coin();
+    c.ignore_include = rng.chance(1, 4);
     // private slots 0..2 by thread so no two threads write one buffer; None = private heap
     c.slot = if tid < 3 && rng.coin() { Some(tid as u8) } else { None };
     c.hash_seed = rng.next();
@@ -82,8 +96,14 @@ fn thread_call(rng: &mut Rng, tid: usize, sc: &mut Scenario, have_files: &mut bo
 
 impl C19 {
     fn solo_refs(&self, sc: &Scenario, rep: &mut RunReport) -> Option<Vec<RunOutcome>> {
-        let mut refs = vec![];
+        let mut refs: Vec<RunOutcome> = vec![];
+        let mut cache: std::collections::HashMap<u64, RunOutcome> = std::collections::HashMap::new();
         for t in 0..sc.threads.len() {
+            let key = crate::rng::fnv(serde_json::to_string(&sc.threads[t]).unwrap_or_default().as_bytes());
+            if let Some(r) = cache.get(&key) {
+                refs.push(r.clone());
+                continue;
+            }
             let mut solo = sc.clone();
             solo.threads = vec![sc.threads[t].clone()];
             solo.schedule = Schedule::Solo;
@@ -94,6 +114,7 @@ impl C19 {
                 rep.harness_error = Some(e.clone());
                 return None;
             }
+            cache.insert(key, out.clone());
             refs.push(out);
         }
         Some(refs)
@@ -162,6 +183,35 @@ impl Property for C19 {
             sc.family = "same-buffer".into();
         } else {
             sc.family = "distinct-buffers".into();
+        }
+        if rng.chance(1, 16) {
+            // a crowd: more threads in one process than any fixed-size per-thread table would hold. Two
+            // directive- and comment-heavy workers, and 127..134 one-shot threads between them
+            let heavy = |rng: &mut Rng| -> Vec<Op> {
+                let mut t = String::from("// head\n");
+                for i in 0..6 + rng.below(6) {
+                    t.push_str(&format!("`define H{} {} /* c{} */\n`ifdef H{}\nwire w{}; // x\n`endif\n", i, i, i, i, i));
+                }
+                t.push_str("module m; /* body */ wire a; endmodule // tail\n");
+                let mut c = Call::new(Api::ParseSvStr, "");
+                c.text = Some(t);
+                vec![Op::Call(c.clone()), Op::Call(c)]
+            };
+            let fillers = 127 + rng.usize_below(8);
+            let mut crowd: Vec<Vec<Op>> = vec![heavy(&mut rng)];
+            for _ in 0..fillers {
+                let mut c = Call::new(Api::PreprocessStr, "");
+                c.text = Some("wire f; // filler\n".to_string());
+                crowd.push(vec![Op::Call(c)]);
+            }
+            crowd.push(heavy(&mut rng));
+            crowd.push(heavy(&mut rng));
+            sc.threads = crowd;
+            sc.vfs.clear();
+            sc.expect = serde_json::json!({});
+            sc.family = "crowd".into();
+            sc.schedule = Schedule::Random { num: 1, den: 4, seed: rng.next() };
+            return sc;
         }
         if rng.chance(1, 8) {
             // free-running supplement: more calls per thread, all threads released together
@@ -268,7 +318,11 @@ impl Property for C19 {
         if sc.family == "same-buffer" && out.sched.switches_midcall > 0 {
             rep.probe("same_pointer_overlap", 1);
         }
-        rep.probe(&format!("threads_{}", sc.threads.len()), 1);
+        if sc.threads.len() > 8 {
+            rep.probe("crowd_runs", 1);
+        } else {
+            rep.probe(&format!("threads_{}", sc.threads.len()), 1);
+        }
         rep.nontrivial = out.sched.preempt_inflight > 0 || out.sched.init_while_other_midcall > 0;
         rep.distinct_key = crate::rng::mix(sc.hash(), out.sched.sig);
         rep.sample = Some(serde_json::json!({
